@@ -14,8 +14,8 @@ sys.path.insert(0, str(Path(__file__).resolve().parent.parent / "translate"))
 
 PROP = "C10"
 LEAN_PROPS = "PpciVerif/Props/C10.lean"
-LEAN_PROPS_EXTRA = ["PpciVerif/Props/C10T1.lean"]   # T1 translation tie of relocation bodies (harness/t1.py, notes/T1.md)
-LEAN_TARGETS = ["PpciVerif.Props.C10", "Drivers.C10", "PpciVerif.Props.C10T1"]
+LEAN_PROPS_EXTRA = ["PpciVerif/Props/C10T1.lean", "PpciVerif/Props/C10T1arm.lean"]   # T1 translation tie of relocation bodies (harness/t1.py, notes/T1.md)
+LEAN_TARGETS = ["PpciVerif.Props.C10", "Drivers.C10", "PpciVerif.Props.C10T1", "PpciVerif.Props.C10T1arm"]
 LEVEL = "proof"
 LEVEL_TEXT = (
     "Lean theorems. (1) For EVERY token field (any width, any bit_range/bit_concat layout that passes the decidable well-formedness "
